@@ -31,7 +31,7 @@ func init() {
 		"HelloDevice, GetOVNextEntry and ProveDevice of an otherwise honest run, judged by an independent predicate "+
 		"(the token that was sent verifies under the voucher's device key with the library's COSE verifier and carries the "+
 		"session's nonce and the voucher's GUID): privileged answers (65/67/69/71, owner module, ReplaceVoucher) only if it "+
-		"holds; distinct = (configuration, scenario)", c02)
+		"holds; also cleartext 66/68/70 of unknown length at a handler with MaxContentLength < 0, session writes journalled as effects; distinct = (configuration, scenario)", c02)
 }
 
 type c02Config struct {
